@@ -15,7 +15,7 @@ RULE = ("Hypothesis draws histories (<=30 calls) over 4 pids (two of them a suff
         "returns exactly its content; when delete_object(pid) returned and pid was the only line of "
         "its cid's list, the object and the list are gone. Non-trivial = a pid is deleted while "
         "another pid still shares its object, or an invalid-verdict call hits a referenced object; "
-        "distinct key = sequence of (op, pid, content, outcome) restricted to the sharing events.")
+        "distinct key = the whole sequence of (op, pid, content, outcome) of a history that contains a sharing event.")
 ASSUMPTIONS = ["single thread", "process-local: crashes and faults are C10/C13"]
 SHRINK_BUDGET = 30.0
 PIDS = ["doi:10.1/x", "10.1/x", "doi:10.1/x.2", "other"]
@@ -23,7 +23,7 @@ FORMATS = [None, "f"]
 
 
 def examples(tier):
-    return 1400 if tier == "quick" else 15000
+    return 3200 if tier == "quick" else 30000
 
 
 @st.composite
@@ -31,10 +31,16 @@ def _case(draw, tier):
     cfg = draw(gen.store_cfgs())
     cs = [draw(gen.contents(max_small=12, big=False)), draw(gen.contents(max_small=12))]
     algo = cfg["algo"]
+    # sharing must be the norm: most stores are valid and use content 0
+    c_skew = st.sampled_from([0, 0, 0, 1])
+    valid_store = st.fixed_dictionaries({"op": st.just("store"), "pid": st.sampled_from(PIDS), "c": c_skew,
+                                         "kind": st.sampled_from(["str", "bytesio"])})
     op = ops.weighted(
-        (7, ops.store_op(PIDS, 2, allow_none=True, validation=True)),
-        (3, ops.tag_op(PIDS, 2, algo, never=False)),
-        (6, ops.delete_op(PIDS)),
+        (7, valid_store),
+        (3, ops.store_op(PIDS, 2, allow_none=True, validation=True)),
+        (3, st.fixed_dictionaries({"op": st.just("tag"), "pid": st.sampled_from(PIDS),
+                                   "cid": c_skew.map(lambda i: {"of": i})})),
+        (7, ops.delete_op(PIDS)),
         (4, ops.dii_op(2)),
         (1, ops.smeta_op(PIDS, FORMATS, 1)),
         (1, ops.dmeta_op(PIDS, ["f"])),
@@ -51,11 +57,12 @@ def run_case(case, ctx):
     run = seq.Run(case, ctx)
     cfg = run.cfg
     bound = {}  # pid -> content index (observational)
-    events = []
+    events, trace = [], []
     for op in case["ops"]:
         k, pid = op["op"], op.get("pid")
         r = run.step(op)
         d = run.describe(r)
+        trace.append([k, pid, op.get("c", op.get("cid")), "ok" if is_ok(r.out) else r.out[1]])
         if k == "store" and pid is not None and is_ok(r.out) and pid not in bound:
             bound[pid] = op["c"]
         elif k == "tag" and is_ok(r.out) and pid not in bound and "of" in op["cid"]:
@@ -92,7 +99,7 @@ def run_case(case, ctx):
                 ctx.violation("referenced-object-altered", f"after {d}: retrieve_object({p!r}) returned "
                               f"{seq._short(o[1])} instead of {seq._short(run.contents[ci])}", {"op": k})
     if events:
-        ctx.nontrivial(events)
+        ctx.nontrivial(trace)
         ctx.sample({"ops": [c05b(o) for o in case["ops"][:14]], "sharing_events": events[:6]})
 
 
